@@ -122,6 +122,13 @@ def run(ctx):
                 # name the attributes behind the keyword
                 cands = [a for a in (set(x for x in at if x != rnglib.ANY) ^ ga) if kw_of(a[1]) == k] or [('?', k)]
                 for a in cands: dev('ATTR', p, a, real[kws.index(k)], want[kws.index(k)], {'element': p, 'keyword': k})
+        # ... whatever the value: None, the empty string and a number are refused like 'x' for a keyword the element does not have
+        for k_ in ('nosuchattribute', 'bogus'):
+            for v_ in (None, '', 0):
+                r_ = outcome(lambda: mk(p).setAttribute(k_, v_)); ctx.oracle_cases += 1
+                if r_ != 'AttributeError': ctx.violation('keyword-check-depends-on-the-value', {'element': p, 'keyword': k_, 'value': repr(v_)}, r_, 'AttributeError', {'call': 'setAttribute'})
+            r_ = outcome(lambda: Element(qname=p, check_grammar=True, **{k_: None})); ctx.oracle_cases += 1
+            if r_ != 'AttributeError' and S.elements[p][2] is not None: ctx.violation('keyword-check-depends-on-the-value', {'element': p, 'keyword': k_, 'value': 'None', 'call': 'constructor'}, r_, 'AttributeError', {'call': 'constructor'})
         if 'AttributeError' in real: ctx.nt(('attr', p))
         ctx.bump('keyword-rows'); ctx.bump('keyword-refused', real.count('AttributeError'))
     # ---- required attributes ----------------------------------------------------------------------------------------------
